@@ -90,6 +90,11 @@ func script(t N) string {
 	// visible after wait) and its own parameter copy (private)
 	sb.WriteString("func shared(p) {\nn := 1\nt := spawn(func(a) {\nn = n + a\na = a + 100\nreturn a\n}, p)\nr := t.wait()\nreturn [r, n, p]\n}\nmark(\"closure\", 8, shared(5))\n")
 	sb.WriteString("gcount := 0\nfunc bump(k) {\ngcount = gcount + k\nreturn gcount\n}\ntb := bump.spawn(3)\ntb.wait()\ndg := chan(1)\ngo func(k, d) {\nbv := bump(k)\nd <- bv\n}(4, dg)\ng9 := <-dg\nmark(\"closure\", 9, [g9, gcount])\n")
+	// nil is a value like any other for iteration: it is delivered, and the iteration ends only at close
+	sb.WriteString("cn := chan(4)\ncn <- 1\ncn <- nil\ncn <- 3\ncn <- nil\nclose(cn)\nln := []\nfor _, v := range cn {\nln.append(v)\n}\nmark(\"nilvalue\", 10, ln)\n")
+	sb.WriteString("cu := chan()\ntu := spawn(func() {\ncu <- nil\ncu <- 7\nclose(cu)\n})\nlu := []\nfor i, v := range cu {\nlu.append([i, v])\n}\ntu.wait()\nmark(\"nilvalue\", 11, lu)\n")
+	// a spawned call that ends in a recovered Go panic: wait() raises that error, it does not return nil
+	sb.WriteString("func deep(n) {\nreturn deep(n + 1)\n}\ntp := spawn(deep, 0)\nmark(\"waitpanic\", 12, try(func() {\nrp := tp.wait()\nreturn [\"no error\", rp]\n}, func(e) {\nreturn \"raised\"\n}))\n")
 	sb.WriteString("\"done\"\n")
 	return sb.String()
 }
